@@ -35,6 +35,7 @@ func main() {
 	dump := flag.String("dump", "", "print the SSA of the function with this key and exit")
 	list := flag.String("list", "", "list function keys containing this substring and exit")
 	calls := flag.String("calls", "", "list the resolved callee keys in the function with this key (and its closures) and exit")
+	dumpParams := flag.String("dumpparams", "", "write the parameter / free-variable names of every module function to this file and exit (regenerates the pinned table)")
 	var overlays multiFlag
 	flag.Var(&overlays, "overlay", "repo-relative-path=replacement-file (repeatable): analyse the tree with this file substituted (self-tests)")
 	flag.Parse()
@@ -77,6 +78,13 @@ func main() {
 	}
 	c.Tier = *tier
 	loadS := time.Since(t0).Seconds()
+	if *dumpParams != "" {
+		if err := writePinnedParams(c, *dumpParams); err != nil {
+			fmt.Printf("ERROR %v\n", err)
+			os.Exit(2)
+		}
+		return
+	}
 	if *dump != "" {
 		f := c.Fn(*dump)
 		if f == nil {
